@@ -158,6 +158,7 @@ class Ctx:
 
     # ---------------------------------------------------------------- verdict
     def violation(self, what, replay_text, no_input=False):
+        if len(what) > 400: what = what[:400] + ' ...'
         h = hashlib.sha256((what + replay_text).encode()).hexdigest()[:10]
         path = os.path.join(ROOT, 'replays', f'{self.prop}-{h}.txt')
         with open(path, 'w') as f:
